@@ -97,6 +97,12 @@ prop("C15", True, "model_checking",
      "Trusted: raw objects from the real line parser (C14) and control points from the real decoder (C12) as inputs of the reference post-processing; breaks chronological and non-overlapping; slider lookup times within 1e-6 ms of a sample point are skipped (float rounding).",
      "DESIGN.md 3/C15", E1)
 
+prop("C06", True, "model_checking",
+     "exhaustive enumeration of record sequences (valid records and corruptions) per section with a 2-safety oracle; explicit-state BFS over real HitObjectsState vs a shadow state fed only accepted lines",
+     "For every sequence of up to k records per section, embedded in a context that makes residue observable, the lines rejected by the public section parser (replayed in context) are removed and the complete decoded Beatmap must be identical; the hit-object parser state is additionally searched breadth-first against a shadow state that only receives accepted lines.",
+     "Trusted: the public parse_* functions' Ok/Err as the definition of 'rejected'; Debug form of Beatmap as the complete result; Debug snapshot of HitObjectsState (verif hook) as state key.",
+     "DESIGN.md 3/C06", E1)
+
 NOT_BUILT_REASON = "check not built yet in this session (planned, see DESIGN.md section 3); not claimed until it exists"
 
 def main():
